@@ -383,6 +383,12 @@ def gen(tier, seed, algo):
         pinned.append((NW.Body({"kind": "box", "a": 4, "b": 4, "c": 4}, np.eye(3, dtype=int), [0.07439738817376806, -1.5806603281462928, 0.4506200896625163], 0, None, R=RA),
                        NW.Body({"kind": "box", "a": 16, "b": 2, "c": 2}, np.eye(3, dtype=int), [-0.7544579391510768, -0.6988587308722798, 0.10524843354558888], 0, None, R=RB),
                        "Box", "Box"))
+    if algo == "mpr":
+        # pinned inputs of the C08 finding "contact position outside a collider for deep overlaps" (thorough tier, identity lift)
+        import json as _json, os as _os
+        for m in _json.load(open(_os.path.join(_os.path.dirname(__file__), "..", "pinned", "c08_deep_contact.json"))):
+            pinned.append((NW.Body(dict(m["A"]["shape"]), m["A"]["M"], m["A"]["t"], m["A"]["margin"]), NW.Body(dict(m["B"]["shape"]), m["B"]["M"], m["B"]["t"], m["B"]["margin"]),
+                           m["clsA"], m["clsB"]))
     for X, Y, clsX, clsY in pinned:
         n += 1
         rid = f"e{n}"
